@@ -96,6 +96,10 @@ def make_program(rng, hostile):
     elif where == "print":
         lines.append((n, [("print", [("e", ("str", hostile)), ("sep", ";"), ("e", ("var", "H$"))], None)]))
     n += 10
+    if hostile and rng.random() < 0.4:
+        # ... followed, further down, by a line with an unbalanced quotation mark (only comments can carry one)
+        lines.append((n, [("rem", rng.choice([' SAY "HI', ' 5 1/4" DISK', ' "', ' A "B" C "']), rng.choice(["REM", "'"]))]))
+        n += 10
     if not lines:
         lines.append((n, [("rem", " EMPTY", "REM")]))
     return lines, where
